@@ -19,7 +19,8 @@
 (*            still has its bytes, inode and link count                    *)
 (* Obligation (the property statement): each of these lies inside the      *)
 (* designated directory (or declared scratch).  bad latches the first      *)
-(* violated obligation; the invariant is bad = "".                         *)
+(* violated obligation of the current scenario (it is cleared when the     *)
+(* next scenario starts); the invariant is bad = "".                       *)
 (***************************************************************************)
 EXTENDS Sequences, Integers
 VARIABLES allow,   \* sequence of directories (segment sequences): allow[1] = the designated directory
@@ -31,7 +32,7 @@ Allowed(p) == \E i \in 1..Len(allow) : InsideP(allow[i], p)
 Latch(v) == bad' = IF bad # "" THEN bad ELSE v
 
 PInit == allow = <<>> /\ bad = ""
-PScenario(dirs) == allow' = dirs /\ Latch(IF Len(dirs) = 0 THEN "tooling: no designated directory" ELSE "")
+PScenario(dirs) == allow' = dirs /\ bad' = (IF Len(dirs) = 0 THEN "tooling: no designated directory" ELSE "")
 PWrite(call, phys, lex) == /\ UNCHANGED allow
                            /\ Latch(IF ~Allowed(phys) THEN "escape: " \o call \o " outside the designated directory"
                                     ELSE IF ~Allowed(lex) THEN "escape-lexical: " \o call \o " names a path outside the designated directory"
